@@ -618,7 +618,17 @@ def new_library(path, kind, ver):
     if os.path.exists(path):
         os.remove(path)
     if ver == 1:
-        cls(path, readonly=False, h1=b"ML10Library")      # creates the file; later handles select the v1 codec
+        # the legacy file is made under ANOTHER name and copied into place: when `path` is first looked at it already holds a
+        # legacy library (what a user's existing .mlib is); later handles select the v1 codec
+        import shutil
+        seed = path + ".legacy-seed"
+        if os.path.exists(seed):
+            os.remove(seed)
+        cls(seed, readonly=False, h1=b"ML10Library")
+        shutil.copyfile(seed, path)
+        for junk in (seed, seed + ".lock"):
+            if os.path.exists(junk):
+                os.remove(junk)
     else:
         cls(path, readonly=False)
 
@@ -1021,8 +1031,10 @@ def run_cases(ctx, items):
     for i, it in enumerate(items):
         groups.setdefault((it["kind"], it["ver"]), []).append(i)
     work = ctx.sub("c01libs")
-    for (kind, ver), idx in groups.items():
-        path = os.path.join(work, f"lib_{kind}_v{ver}." + ("mlib" if kind == "mol" else "clib"))
+    for (kind, ver), idx in sorted(groups.items(), key=lambda g: (g[0][0], g[0][1])):      # per kind: the legacy library first, then v2
+        # ONE path per kind: the legacy and the current library are created, one after the other, under the same name in the
+        # same process (delete + recreate / in-place upgrade): the codec must follow the FILE, not what the path held before
+        path = os.path.join(work, f"lib_{kind}." + ("mlib" if kind == "mol" else "clib"))
         res = store_and_read(path, kind, ver, {f"k{i}": items[i]["obj"] for i in idx})
         for i in idx:
             r = res[f"k{i}"]
